@@ -65,6 +65,16 @@ Section EtMMutation.
     apply split3. lia.
   Qed.
 
+  (* the presented tag of an accepted ciphertext has exactly the key's tag size (>= 10 bytes for
+     every key the constructors accept: EtM.etm_valid; internal/mac/hmac.New and
+     aead/subtle.NewEncryptThenAuthenticate minTagSizeInBytes = 10, aesctrhmac.NewParameters) *)
+  Lemma etm_accepted_tag_length prefix k c' ad' p' :
+    dec_canon prefix k c' ad' = Ok p' -> length (tag_of k c') = ek_tag k.
+  Proof.
+    intros Hd. destruct (etm_dec_ok_inv _ _ _ _ _ Hd) as [Hl _].
+    unfold EtMProofs.tag_of. rewrite skipn_length. lia.
+  Qed.
+
   (* ---- the reduction: an accepted mutant is a MAC forgery ---- *)
   Theorem etm_accepted_mutant_is_forgery prefix k iv p ad c c' ad' p' :
     (ek_tag k <= hlen)%nat -> lenN ad < 2 ^ 61 -> lenN ad' < 2 ^ 61 ->
